@@ -1408,7 +1408,7 @@ Proof.
   - apply keep_ok in H. apply bind_ok in H as (s1 & H1 & H). apply bind_ok in H as (s2 & H2 & H).
     apply bind_ok in H as ([c3 s3] & H3 & H). apply bind_ok in H as (ex & _ & H). apply bind_ok in H as (s4 & H4 & H).
     apply push_frame_outer in H1. apply perform_include_outer in H2. apply end_capture_outer in H3.
-    apply pop_frame_outer in H4. apply set_var_outer in H. cbn in H1. lia.
+    apply pop_frame_outer in H4. apply set_var_outer in H. cbn in H1. cbn [fst snd] in *. lia.
   - apply keep_ok in H. apply bind_ok in H as (s1 & H1 & H). apply bind_ok in H as (s2 & H2 & H).
     apply bind_ok in H as (s3 & H3 & H). apply bind_ok in H as (s4 & H4 & H). apply bind_ok in H as ([c5 s5] & H5 & H).
     inversion H; subst; clear H.
@@ -1543,7 +1543,7 @@ Proof.
   - apply bind_ok in H as (s1 & H1 & H). apply bind_ok in H as (s2 & H2 & H).
     apply bind_ok in H as ([c3 s3] & H3 & H). apply bind_ok in H as (ex & _ & H). apply bind_ok in H as (s4 & H4 & H).
     apply push_frame_loaded in H1. apply include_keeps_record_proof in H2 as [H2 _]. apply end_capture_loaded in H3.
-    apply pop_frame_loaded in H4. apply set_var_loaded in H. cbn in H1. congruence.
+    apply pop_frame_loaded in H4. apply set_var_loaded in H. cbn in H1. cbn [fst snd] in *. congruence.
   - apply bind_ok in H as (s1 & H1 & H). apply bind_ok in H as (s2 & H2 & H).
     apply bind_ok in H as (s3 & H3 & H). apply bind_ok in H as (s4 & H4 & H). apply bind_ok in H as ([c5 s5] & H5 & H).
     inversion H; subst; clear H.
